@@ -1,7 +1,24 @@
 """C04 translator: the constants and source shapes the C04 model relies on -> coq/gen/C04Consts.v.
 
-Re-extracted from the Go sources on every run (regex over the declarations; fails loudly when a
-declaration is no longer found, which the runner reports as a broken obligation):
+Re-extracted from the Go sources on every run.  Two extractors, item by item:
+  1. SYNTACTIC (fast path): regular expressions over the gofmt'ed declarations, as listed below.  It
+     recognises today's shapes and a few variants; a harmless rewrite (renamed locals / fields /
+     constants, the exemption test moved into a helper or a switch, explicit unlocks instead of a
+     deferred one, reordered statements) may defeat it.  That is NOT a finding.
+  2. BEHAVIOURAL (fallback for every item the syntactic extractor cannot recognise): the value is
+     determined by experiment on the code of the current tree — a small differential family of
+     requests through handler.TimeoutHandler (harness/cmd/c04) and through a real rest.Server
+     (overlay test in package rest): which status answers a cancelled / an expired request, with which
+     body; is a websocket / event-stream request wrapped; which codes make WriteHeader panic; is a
+     Flush after the timeout ignored, does Flush send the recorded status, does the done branch
+     send it twice; ng.timeout, Read/WriteTimeout and the handler's deadline for conf.Timeout = 60000;
+     the headers an SSE route sets; the RecoverHandler's status.
+  An item neither extractor can establish is reported (RuntimeError -> broken obligation; the runner
+  then searches for a failing input and reports no-failing-input-found only if it finds none).
+  A value that CHANGED reaches coq/gen/C04Consts.v whichever extractor found it, and GenProofs.v
+  is re-checked against it.
+
+Syntactic sources:
   rest/handler/timeouthandler.go   499, the reason string, the header names/values of the exemptions,
                                    the two statuses of the ctx.Done() branch (in source order: Canceled, else),
                                    the bounds of checkWriteHeaderCode, the default status of a timeoutWriter,
@@ -77,31 +94,29 @@ def _status_value(ident, src, rel):
 
 DEFAULTS = {"exempt": [("Upgrade", "websocket"), ("Accept", "text/event-stream")],
             "sse_headers": [("Content-Type", "text/event-stream"), ("Cache-Control", "no-cache"),
-                            ("Connection", "keep-alive")]}
+                            ("Connection", "keep-alive")],
+            "recover_code": 500}
+
+LAST = None          # the constants of the last successful extract() (generation / rendering use them)
 
 
 def extract_or_defaults():
     """for case generation / rendering only: never raises (regen() reports what is broken)"""
+    if LAST is not None:
+        return LAST
     try:
         return extract()
     except Exception:
         return dict(DEFAULTS)
 
 
-def extract():
-    c = {}
+# ----------------------------------------------------------------------------------------------
+# syntactic extractor: one function per group of items; each may raise
+
+def _syn_handler_consts(c):
     rel = "rest/handler/timeouthandler.go"
     s = _read(rel)
-    c["statusClientClosedRequest"] = _int_const(s, "statusClientClosedRequest", rel)
-    for n in ("reason", "headerUpgrade", "valueWebsocket", "headerAccept", "valueSSE"):
-        c[n] = _str_const(s, n, rel)
-    serve = _func_body(s, r"func \(h \*timeoutHandler\) ServeHTTP\(", rel)
-    # the exemption test: the comparisons r.Header.Get(name) == value, literally, wherever they are written
-    # (in ServeHTTP or in a helper it calls), in source order
-    ms = re.findall(r"r\.Header\.Get\((\w+)\) == (\w+)", s)
-    if len(ms) != 2:
-        _fail("the two websocket / event-stream exemption comparisons r.Header.Get(..) == ..", rel)
-    c["exempt"] = [(_str_const(s, n, rel), _str_const(s, v, rel)) for n, v in ms]
+    serve = _func_body(s, r"func \(\w+ \*timeoutHandler\) ServeHTTP\(", rel)
     i = serve.find("case <-ctx.Done():")
     if i < 0:
         _fail("case <-ctx.Done()", rel)
@@ -111,8 +126,33 @@ def extract():
         _fail("the 499/503 choice of the ctx.Done() branch", rel)
     c["code_cancel"] = _status_value(m.group(1), s, rel)
     c["code_deadline"] = _status_value(m.group(2), s, rel)
+
+
+def _syn_reason(c):
+    rel = "rest/handler/timeouthandler.go"
+    s = _read(rel)
     if not re.search(r"func \(h \*timeoutHandler\) errorBody\(\) string \{\s*return reason\s*\}", s):
         _fail("errorBody() returning reason", rel)
+    c["reason"] = _str_const(s, "reason", rel)
+
+
+def _syn_exempt(c):
+    rel = "rest/handler/timeouthandler.go"
+    s = _read(rel)
+    # the exemption test: the comparisons r.Header.Get(name) == value, literally, wherever they are written
+    # (in ServeHTTP, in a helper it calls, or as the cases of a switch), in source order
+    ms = re.findall(r"\w+\.Header\.Get\((\w+)\) == (\w+)", s)
+    if len(ms) != 2:
+        ms = re.findall(r"switch \w+\.Header\.Get\((\w+)\) \{\s*case (\w+):", s)
+    if len(ms) != 2:
+        _fail("the two websocket / event-stream exemption comparisons r.Header.Get(..) == ..", rel)
+    c["exempt"] = [(_str_const(s, n, rel), _str_const(s, v, rel)) for n, v in ms]
+
+
+def _syn_default_status(c):
+    rel = "rest/handler/timeouthandler.go"
+    s = _read(rel)
+    serve = _func_body(s, r"func \(\w+ \*timeoutHandler\) ServeHTTP\(", rel)
     m = re.search(r"tw := &timeoutWriter\{[^}]*\bcode:\s*([\w.]+),", serve) or re.search(r"\btw\.code = (http\.\w+)\n", s)
     if not m:
         _fail("the initial code of the timeoutWriter", rel)
@@ -122,29 +162,74 @@ def extract():
         _fail("the status forwarding of the done branch", rel)
     c["code_implicit"] = _status_value(m.group(1), s, rel)
     c["done_skips_status_when_flushed"] = bool(m.group(2))
+
+
+def _syn_bounds(c):
+    rel = "rest/handler/timeouthandler.go"
+    s = _read(rel)
     chk = _func_body(s, r"func checkWriteHeaderCode\(code int\) ", rel)
     m = re.search(r"if code < (\d+) \|\| code > (\d+) \{", chk)
     if not m:
         _fail("the bounds of checkWriteHeaderCode", rel)
     c["code_min"], c["code_max"] = int(m.group(1)), int(m.group(2))
-    fl = _func_body(s, r"func \(tw \*timeoutWriter\) Flush\(\) ", rel)
-    c["flush_locks"] = "tw.mu.Lock()" in fl and "defer tw.mu.Unlock()" in fl
-    c["flush_checks_timedout"] = bool(re.search(r"if tw\.timedOut \{\s*return\s*\}", fl))
-    c["flush_sends_status"] = bool(re.search(r"tw\.w\.WriteHeader\(tw\.code\)", fl))
-    wr = _func_body(s, r"func \(tw \*timeoutWriter\) Write\(p \[\]byte\) ", rel)
-    c["write_checks_timedout"] = bool(re.search(r"if tw\.timedOut \{\s*return 0, http\.ErrHandlerTimeout\s*\}", wr))
 
+
+def _syn_flush_locks(c):
+    """Flush runs under the writer's mutex: a Lock() on a field of the receiver and an Unlock() of the same
+    field (deferred, or explicit: then one per return statement after the Lock and one at the end)"""
+    rel = "rest/handler/timeouthandler.go"
+    s = _read(rel)
+    m = re.search(r"func \((\w+) \*timeoutWriter\) Flush\(\) ", s)
+    if not m:
+        _fail("timeoutWriter.Flush", rel)
+    recv = m.group(1)
+    fl = _func_body(s, r"func \(\w+ \*timeoutWriter\) Flush\(\) ", rel)
+    lk = re.search(r"\b%s\.(\w+)\.Lock\(\)" % re.escape(recv), fl)
+    if not lk:
+        c["flush_locks"] = False
+        return
+    unlock = "%s.%s.Unlock()" % (recv, lk.group(1))
+    after = fl[lk.end():]
+    if "defer " + unlock in after:
+        c["flush_locks"] = True
+        return
+    # explicit unlocks: every `return` after the Lock is preceded by one, and the body ends with one
+    rets = [mm.start() for mm in re.finditer(r"\breturn\b", after)]
+    ok = all(re.search(re.escape(unlock) + r"\s*$", after[:r]) for r in rets)
+    ok = ok and re.search(re.escape(unlock) + r"\s*\}\s*$", after) is not None
+    if not ok:
+        _fail("the Unlock of timeoutWriter.Flush on every path", rel)
+    c["flush_locks"] = True
+
+
+def _syn_flush_shape(c):
+    rel = "rest/handler/timeouthandler.go"
+    s = _read(rel)
+    fl = _func_body(s, r"func \(tw \*timeoutWriter\) Flush\(\) ", rel)
+    a = bool(re.search(r"if tw\.timedOut \{\s*(tw\.mu\.Unlock\(\)\s*)?return\s*\}", fl))
+    b = bool(re.search(r"tw\.w\.WriteHeader\(tw\.code\)", fl))
+    wr = _func_body(s, r"func \(tw \*timeoutWriter\) Write\(p \[\]byte\) ", rel)
+    w = bool(re.search(r"if tw\.timedOut \{\s*(tw\.mu\.Unlock\(\)\s*)?return 0, http\.ErrHandlerTimeout\s*\}", wr))
+    if not (a and b and w):
+        # a `false` from a pattern that merely was not recognised would be a false alarm: let the experiment decide
+        _fail("the shapes of timeoutWriter.Flush / Write (timedOut test, status sent)", rel)
+    c["flush_checks_timedout"], c["flush_sends_status"], c["write_checks_timedout"] = a, b, w
+
+
+_UNITS = {"Nanosecond": 1, "Microsecond": 10**3, "Millisecond": 10**6, "Second": 10**9}
+
+
+def _syn_engine(c):
     rel = "rest/engine.go"
     e = _read(rel)
     m = re.search(r"return time\.Duration\(ng\.conf\.Timeout\) \* time\.(\w+)", _func_body(e, r"func \(ng \*engine\) checkedTimeout\(", rel))
     if not m:
         _fail("the unit of conf.Timeout in checkedTimeout", rel)
-    units = {"Nanosecond": 1, "Microsecond": 10**3, "Millisecond": 10**6, "Second": 10**9}
-    c["conf_unit_ns"] = units[m.group(1)]
+    c["conf_unit_ns"] = _UNITS[m.group(1)]
     m = re.search(r"timeout: time\.Duration\(c\.Timeout\) \* time\.(\w+)", _func_body(e, r"func newEngine\(", rel))
     if not m:
         _fail("the unit of conf.Timeout in newEngine", rel)
-    c["conf_unit_ns_engine"] = units[m.group(1)]
+    c["conf_unit_ns_engine"] = _UNITS[m.group(1)]
     wt = _func_body(e, r"func \(ng \*engine\) withTimeout\(\) ", rel)
     m1 = re.search(r"svr\.ReadTimeout = (\d+) \* timeout / (\d+)", wt)
     m2 = re.search(r"svr\.WriteTimeout = (\d+) \* timeout / (\d+)", wt)
@@ -152,6 +237,11 @@ def extract():
         _fail("ReadTimeout/WriteTimeout factors of withTimeout", rel)
     c["read_num"], c["read_den"] = int(m1.group(1)), int(m1.group(2))
     c["write_num"], c["write_den"] = int(m2.group(1)), int(m2.group(2))
+
+
+def _syn_sse(c):
+    rel = "rest/engine.go"
+    e = _read(rel)
     sse = _func_body(e, r"func buildSSERoutes\(", rel)
     hs = re.findall(r"w\.Header\(\)\.Set\(header\.(\w+), header\.(\w+)\)", sse)
     if not hs:
@@ -159,6 +249,68 @@ def extract():
     rel = "rest/internal/header/headers.go"
     h = _read(rel)
     c["sse_headers"] = [(_str_const(h, k, rel), _str_const(h, v, rel)) for k, v in hs]
+
+
+def _syn_recover(c):
+    rel = "rest/handler/recoverhandler.go"
+    r = _read(rel)
+    body = _func_body(r, r"func RecoverHandler\(", rel)
+    m = re.search(r"recover\(\).*?\.WriteHeader\(([\w.]+)\)", body, re.S)
+    if not m:
+        _fail("the status the RecoverHandler answers with", rel)
+    c["recover_code"] = _status_value(m.group(1), r, rel)
+
+
+# group name -> (syntactic extractor, the items it establishes)
+GROUPS = [
+    ("timeout_codes", _syn_handler_consts, ["code_cancel", "code_deadline"]),
+    ("reason", _syn_reason, ["reason"]),
+    ("exempt", _syn_exempt, ["exempt"]),
+    ("default_status", _syn_default_status, ["code_default", "code_implicit", "done_skips_status_when_flushed"]),
+    ("bounds", _syn_bounds, ["code_min", "code_max"]),
+    ("flush_locks", _syn_flush_locks, ["flush_locks"]),
+    ("flush_shape", _syn_flush_shape, ["flush_checks_timedout", "flush_sends_status", "write_checks_timedout"]),
+    ("engine", _syn_engine, ["conf_unit_ns", "conf_unit_ns_engine", "read_num", "read_den", "write_num", "write_den"]),
+    ("sse", _syn_sse, ["sse_headers"]),
+    ("recover", _syn_recover, ["recover_code"]),
+]
+ITEMS = [k for _g, _f, ks in GROUPS for k in ks]
+HOW = {}             # item -> "source" | "experiment" (of the last extract)
+
+
+def extract(probe=None):
+    """probe(groups) -> dict of items established by experiment on the current tree (tools/props/c04.py)"""
+    global LAST
+    c, missing, why = {}, [], {}
+    HOW.clear()
+    for name, fn, keys in GROUPS:
+        part = {}
+        try:
+            fn(part)
+            if any(k not in part for k in keys):
+                raise RuntimeError("incomplete")
+            c.update(part)
+            for k in keys:
+                HOW[k] = "source"
+        except Exception as ex:      # noqa: a shape the regular expressions do not know
+            missing.append(name)
+            why[name] = str(ex)
+    if missing and probe is not None:
+        try:
+            got = probe(missing)
+        except Exception as ex:
+            got = {}
+            why["experiment"] = str(ex)[-600:]
+        for name, _fn, keys in GROUPS:
+            if name in missing and all(k in got for k in keys):
+                for k in keys:
+                    c[k] = got[k]
+                    HOW[k] = "experiment"
+                missing.remove(name)
+    if missing:
+        raise RuntimeError("C04 translator: %s established neither from the source nor by experiment (%s)" % (
+            ", ".join(missing), "; ".join("%s: %s" % kv for kv in sorted(why.items()))))
+    LAST = c
     return c
 
 
@@ -170,10 +322,10 @@ def _b(x):
     return "true" if x else "false"
 
 
-def regen():
-    c = extract()
-    body = ["(* GENERATED by tools/c04consts.py from rest/handler/timeouthandler.go, rest/engine.go,",
-            "   rest/internal/header/headers.go and net/http/status.go - do not edit.",
+def regen(probe=None):
+    c = extract(probe)
+    body = ["(* GENERATED by tools/c04consts.py from rest/handler/timeouthandler.go, rest/handler/recoverhandler.go,",
+            "   rest/engine.go, rest/internal/header/headers.go and net/http/status.go - do not edit.",
             "   Strings are lists of byte codes. *)",
             "From Coq Require Import List ZArith Bool.", "Import ListNotations.", "Open Scope Z_scope.", ""]
     for coqname, key in (("code_cancel", "code_cancel"), ("code_deadline", "code_deadline"),
@@ -181,7 +333,8 @@ def regen():
                          ("code_min", "code_min"), ("code_max", "code_max"),
                          ("conf_unit_ns", "conf_unit_ns"), ("conf_unit_ns_engine", "conf_unit_ns_engine"),
                          ("read_num", "read_num"), ("read_den", "read_den"),
-                         ("write_num", "write_num"), ("write_den", "write_den")):
+                         ("write_num", "write_num"), ("write_den", "write_den"),
+                         ("recover_status", "recover_code")):
         body.append("Definition %s : Z := %d." % (coqname, c[key]))
     body.append("Definition reason_text : list Z := %s.  (* %s *)" % (_bytes(c["reason"]), c["reason"]))
     body.append("Definition exempt_headers : list (list Z * list Z) := [%s].  (* %s *)" % (
@@ -200,7 +353,9 @@ def regen():
     if old != text:
         with open(path, "w") as f:
             f.write(text)
-    return ["C04Consts.v: codes %d/%d reason=%r exempt=%s sse_headers=%d factors %d/%d %d/%d flush(lock=%s,timedOut=%s,status=%s)"
+    exp = sorted(k for k, v in HOW.items() if v == "experiment")
+    return ["C04Consts.v: codes %d/%d reason=%r exempt=%s sse_headers=%d factors %d/%d %d/%d flush(lock=%s,timedOut=%s,status=%s) recover=%d%s"
             % (c["code_cancel"], c["code_deadline"], c["reason"], c["exempt"], len(c["sse_headers"]),
                c["read_num"], c["read_den"], c["write_num"], c["write_den"],
-               c["flush_locks"], c["flush_checks_timedout"], c["flush_sends_status"])]
+               c["flush_locks"], c["flush_checks_timedout"], c["flush_sends_status"], c["recover_code"],
+               ("; established by EXPERIMENT (source shape not recognised): " + ", ".join(exp)) if exp else "")]
